@@ -304,8 +304,12 @@ def _flex(old):
     """Regex for `old` that tolerates trailing blanks and whitespace-only lines."""
     import re
     parts = []
-    for line in old.split('\n'):
-        parts.append(re.escape(line.rstrip()) + r'[ \t]*')
+    lines = old.split('\n')
+    for k, line in enumerate(lines):
+        if k == len(lines) - 1 and line == '':
+            parts.append('')        # `old` ends with a newline: do not eat the next line's indentation
+        else:
+            parts.append(re.escape(line.rstrip()) + r'[ \t]*')
     return re.compile('\n'.join(parts))
 
 
